@@ -72,6 +72,21 @@ func (w *World) pkgByName(name string, from *types.Package) *types.Package {
 				return imp
 			}
 		}
+		// import aliases of the package's own source files (e.g. api "…/api/yorkie/v1")
+		if pp := w.byPath[from.Path()]; pp != nil {
+			for _, f := range pp.Syntax {
+				for _, is := range f.Imports {
+					if is.Name != nil && is.Name.Name == name {
+						path := strings.Trim(is.Path.Value, "\"")
+						for _, imp := range from.Imports() {
+							if imp.Path() == path {
+								return imp
+							}
+						}
+					}
+				}
+			}
+		}
 	}
 	var cand *types.Package
 	for _, p := range w.byName[name] {
